@@ -208,6 +208,10 @@ func (c Chain) NextRules(fromVer string) []Rule {
 		if idxFrom == -1 {
 			continue
 		}
+		// A substring match is not enough: v1 is not v1beta1.
+		if !VersionsMatched(k, fromVer) {
+			continue
+		}
 		for toVer := range c.BaseFromToIndex[k] {
 			rules = append(rules, Rule{
 				FromVersion: k,
